@@ -69,3 +69,14 @@ func (e *Encoder) VerifState() VerifState {
 	}
 	return s
 }
+
+// VerifSharedHash hashes this package's package-level variables.
+func VerifSharedHash() string {
+	s := ""
+	for i, d := range drawOps {
+		if d.nArgs != 0 || d.opcodeBase != 0 || d.maxRepCount != 0 {
+			s += string(rune(i)) + ":" + string(rune('0'+d.nArgs)) + string(rune(d.opcodeBase)) + string(rune(d.maxRepCount)) + ";"
+		}
+	}
+	return s + string(rune(negativeInfinityBits())) + string(rune(positiveInfinityBits()))
+}
